@@ -453,14 +453,21 @@ def phi0(st):
 
 
 def phi(T, hist, k, sigma, check=True, child_mode='opaque', el_name=None):
-    st = build(T, hist, check, child_mode, el_name)
+    try:
+        st = build(T, hist, check, child_mode, el_name)
+    except Exception as e:  # construction of a fresh element itself fails: that is an observation, not a harness error
+        return ('construction-raises', type(e).__name__, str(e)[:100])
     base = phi0(st)
     if k == 0:
         return base
     nxt = []
     for a in sigma:
         h2 = list(hist) + [('A', a)]
-        st2 = build(T, h2, check, child_mode, el_name)
+        try:
+            st2 = build(T, h2, check, child_mode, el_name)
+        except Exception as e:
+            nxt.append((a, 'construction-raises', type(e).__name__))
+            continue
         o = st2.outcomes[-1]
         if k == 1:
             nxt.append((a, o.brief(), phi0(st2)))
